@@ -47,6 +47,19 @@ CASE_COLLIDING = [
 ]
 
 
+def _p(*procs):
+    return [{"processor": "TSourceDef"}] + [{"processor": p} for p in procs]
+
+
+HISTORY_PAIRS = [
+    (_p("delete:run_id"), _p("delete:run.id")),
+    (_p("rename:meta_tag:label"), _p("rename:meta.tag:label")),
+    (_p("rename:a_to_b:c"), _p("rename:a:b_to_c")),
+    (_p('template:"x{a}":tag'), _p('template:"y{b}_{c}":tag')),
+    (_p("TCollSource", "slice:TOp0:TColl"), _p("slice:TOp0:TColl2")),
+]
+
+
 def start_ids(nodes, ctx0=None, pipeline=None):
     """ids attached to pipeline_start of a traced run (the run itself may fail later)."""
     pipegen.setup()
@@ -178,12 +191,19 @@ def run(tier: str) -> int:
     # -------- fresh processes, hash seeds, working directories ------------------------------------------
     with rt.tempdir() as d:
         (d / "child.py").write_text(_CHILD)
-        for k in range(n_sub):
-            nodes = configs[(k * 7) % len(configs)] if k % 3 else CASE_COLLIDING[(k // 3) % len(CASE_COLLIDING)]
+        sub_cases = [(configs[(k * 7) % len(configs)] if k % 3 else CASE_COLLIDING[(k // 3) % len(CASE_COLLIDING)], None) for k in range(n_sub)]
+        # shorthand pairs whose generated class names coincide (separators are sanitised away, a template's text and a slicer's
+        # collection are not part of the name): X inspected here after Y must give what X gives in a fresh process
+        sub_cases += [(x, y) for (y, x) in HISTORY_PAIRS]
+        for k, (nodes, earlier) in enumerate(sub_cases):
+            if earlier is not None:
+                idgen.real_payload(earlier)
+                start_ids(earlier, {})
+                stats["history_pairs"] = stats.get("history_pairs", 0) + 1
             base = idgen.real_ids(nodes)
             base["payload"] = json.dumps(base.pop("payload"), sort_keys=True, default=str)
             (d / f"cfg{k}.yaml").write_text(yaml.safe_dump({"pipeline": {"nodes": nodes}}, sort_keys=False))
-            for seed, cwd in (("0", str(core.REPO)), ("1", str(d)), ("random", "/"), ("4", "/"), ("11", "/")):
+            for seed, cwd in ((("0", str(core.REPO)), ("1", str(d)), ("random", "/"), ("4", "/"), ("11", "/")) if earlier is None else (("0", "/"),)):
                 env = dict(os.environ, PYTHONHASHSEED=seed)
                 try:
                     p = subprocess.run([sys.executable, str(d / "child.py"), str(d / f"cfg{k}.yaml")], capture_output=True, text=True,
